@@ -65,13 +65,16 @@ def run(prog, rep):
         raise AnalysisBroken("no sleep primitive call site found (p_uthread_sleep anchor changed)")
 
 
+# the property also covers builds that only have nanosleep(): same unit, clock_nanosleep disabled
+THOROUGH_CONFIGS = [dict(name="nanosleep-only", extra_flags={"puthread.c": ["-UPLIBSYS_HAS_CLOCKNANOSLEEP"]})]
+
 SELFTEST = [
     dict(id="semwait-while-to-if", file="src/psemaphore-posix.c", expect="C19.1",
          old="\twhile ((res = sem_wait (sem->sem_hdl)) == -1 && p_error_get_last_system () == EINTR)\n\t\t;",
          new="\tres = sem_wait (sem->sem_hdl);"),
     dict(id="recv-drop-continue", file="src/psocket.c", expect="C19.1",
-         old="\t\tif ((ret = recv (socket->fd, buffer, (socklen_t) buflen, 0)) < 0) {\n\t\t\terr_code = p_error_get_last_net ();\n\n#if !defined (P_OS_WIN) && defined (EINTR)\n\t\t\tif (err_code == EINTR)\n\t\t\t\tcontinue;\n#endif",
-         new="\t\tif ((ret = recv (socket->fd, buffer, (socklen_t) buflen, 0)) < 0) {\n\t\t\terr_code = p_error_get_last_net ();\n"),
+         old="\t\tif ((ret = recv (socket->fd, buffer, P_SOCKET_BUFLEN_CAST (buflen), 0)) < 0) {\n\t\t\terr_code = p_error_get_last_net ();\n\n#if !defined (P_OS_WIN) && defined (EINTR)\n\t\t\tif (err_code == EINTR)\n\t\t\t\tcontinue;\n#endif",
+         new="\t\tif ((ret = recv (socket->fd, buffer, P_SOCKET_BUFLEN_CAST (buflen), 0)) < 0) {\n\t\t\terr_code = p_error_get_last_net ();\n"),
     dict(id="poll-eintr-timed", file="src/psocket.c", expect="C19.1",
          old="#    else\n\t\t\tcontinue;\n#    endif", new="#    else\n\t\t\tif (timeout < 0)\n\t\t\t\tcontinue;\n\t\t\telse\n\t\t\t\tevret = 0;\n#    endif"),
     dict(id="connect-eintr-break", file="src/psocket.c", expect="C19.1",
